@@ -103,6 +103,7 @@ Fixpoint dec_ynode (fuel : nat) (v : value) : ynode :=
   | S f =>
       match v with
       | VList [VStr t; VStr tag; VStr text] => if String.eqb t "s" then YScalar tag text else YEmpty
+      | VList [VStr t] => if String.eqb t "aliasup" then YAliasUp else YEmpty
       | VList [VStr t; x] =>
           if String.eqb t "alias" then YAlias (dec_ynode f x)
           else match x with
